@@ -171,7 +171,9 @@ func init() {
 			// a pinned selector inside an aggregation parameter, and as the vector argument of a
 			// function whose other argument varies per step
 			`topk(scalar(b{l="0"} @ 100.000), a)`, `quantile(scalar(b{l="0"} @ 45.000) / 10, a)`, `clamp_min(a @ end(), scalar(b{l="0"}))`, `clamp_max(-a @ 45.000, scalar(b{l="0"}))`,
-			`histogram_quantile(scalar(b{l="0"}) / 10, a @ end())`, `clamp(a @ start() offset 30s, scalar(b{l="0"}), 100)`} {
+			`histogram_quantile(scalar(b{l="0"}) / 10, a @ end())`, `clamp(a @ start() offset 30s, scalar(b{l="0"}), 100)`,
+			// pinned exactly at the epoch
+			`a @ 0.000`, `sum by (l) (a @ 0.000)`, `rate(a[1m] @ 0.000)`, `a @ 0.000 + a`, `max_over_time(a[45s] @ 0.000 offset -30s)`} {
 			if cq := gen.Canon(q); cq != "" && !f.Has(cq) && !k.Has(cq) {
 				qs = append(qs, cq)
 			}
@@ -179,7 +181,7 @@ func init() {
 		c.Rep.Transitions += f.Transitions + k.Transitions
 		c.Rep.Bounds["queries"] = len(qs)
 		// (the last one: a range query with a single step)
-		ws := []core.Window{core.Instant(45000), core.Range(10000, 30000, 11), core.Range(0, 45000, 21), core.Range(45000, 30000, 1)}
+		ws := []core.Window{core.Instant(45000), core.Range(10000, 30000, 11), core.Range(0, 45000, 21), core.Range(45000, 30000, 1), core.Range(1200000, 30000, 3)}
 		los := []core.Opts{{Optimizers: "none"}, {Optimizers: "none", LookbackMs: 60000}, {Optimizers: "none", QLookbackMs: 45000}}
 		optsets := []string{"none", "", "all", "s", "m", "p", "sm", "mp"}
 		if !c.Thorough() {
@@ -677,10 +679,16 @@ func init() {
 		c.Rep.Bounds["positions"] = len(c09Positions)
 		c.Rep.Bounds["optimizer_sets"] = append([]string{"none"}, optAll...)
 		ws := []core.Window{core.Range(10000, 30000, 3)}
+		// asWritten: run the text as written (the canonical printing of the parser sorts the
+		// matchers of a selector, which would hide the order they were written in)
+		asWritten := false
 		emit := func(q string, w core.Window) bool {
 			cq := gen.Canon(q)
 			if cq == "" {
 				return true
+			}
+			if asWritten {
+				cq = q
 			}
 			c.Rep.Transitions++
 			if !c.Mine() {
@@ -728,6 +736,44 @@ func init() {
 					return
 				}
 			}
+		}
+		// a repeated label name whose two matchers are written apart (a third matcher between
+		// them), on one side of a cross-metric operator: what propagation and merging see
+		// when the matchers have not been sorted first
+		{
+			asWritten = true
+			lm := []string{`l="0"`, `l!="0"`, `l=~"0|1"`, `l!~"1"`, `l=""`}
+			mm := []string{`m="1"`, `m!=""`, `m=~"0|1"`}
+			for _, m1 := range lm {
+				for _, m2 := range mm {
+					for _, m3 := range lm {
+						if m1 == m3 {
+							continue
+						}
+						sel := "b{" + m1 + "," + m2 + "," + m3 + "}"
+						for _, pos := range []string{`a + %s`, `%s + a`, `a{m="1"} * %s`, `%s - a{l!=""}`, `a{l=~"0|1",m!="",l!="1"} + %s`} {
+							if !emit(fmt.Sprintf(pos, sel), ws[0]) {
+								return
+							}
+						}
+					}
+				}
+			}
+			// and every two-matcher selector of the alphabet written in both orders
+			al := matcherAlphabet()
+			for _, m1 := range al {
+				for _, m2 := range al {
+					if m1 >= m2 {
+						continue
+					}
+					for _, pos := range []string{`a + b{%s,%s}`, `a{%s,%s} + a`} {
+						if !emit(fmt.Sprintf(pos, m2, m1), ws[0]) {
+							return
+						}
+					}
+				}
+			}
+			asWritten = false
 		}
 		// single selectors in unary positions
 		for _, x := range selectorsUpTo("a", 2) {
